@@ -137,3 +137,15 @@ def app_check(ctx, prop, props_v, theorems, codes, pred, extra_assume, known_cla
         "exhaustive": False,
     }, assume)
     return res
+
+
+def patch_evidence(ctx, extra, distinct=None):
+    """add run-specific coverage numbers to the evidence file written by app_check"""
+    p = os.path.join(V.VERIF, "evidence", ctx.prop + ".json")
+    ev = json.load(open(p))
+    ev["coverage"].update(extra)
+    if distinct is not None:
+        ev["coverage"]["distinct_nontrivial"] = distinct
+    ev["violations"] = len(ctx.violations)
+    ev["known_findings"] = ctx.known
+    json.dump(ev, open(p, "w"), indent=1, default=str)
